@@ -89,6 +89,7 @@ let internal_event (e : sstate event) : string option =
   | EDeq IExit -> Some "deq exit"
   | EDisc -> Some "disconnect"
   | EDrop a -> Some (Printf.sprintf "drop %d" (int_of_n a))
+  | EReject a -> Some (Printf.sprintf "reject %d" (int_of_n a))
   | ESubDrop s -> Some (Printf.sprintf "subdrop %d" (int_of_n s))
   | EWrite (a, _) -> Some (Printf.sprintf "write %d" (int_of_n a))
   | ESnapshot (a, l) -> Some (Printf.sprintf "snapshot %d [%s]" (int_of_n a) (string_of_ids l))
